@@ -70,6 +70,11 @@ class CallMixin:
         for k in e.keywords:
             v = self.eval(k.value, fr)
             if k.arg is None:
+                if v.kind == "phi" and all(a.kind == "dict" and all(x.kind == "const" for x in a.args[0]) for a in v.args[0]) \
+                        and len({tuple(x.args[0] for x in a.args[0]) for a in v.args[0]}) == 1:
+                    # the same keys on every python-level path: join the values key by key
+                    a0 = v.args[0][0]
+                    v = mk("dict", a0.args[0], tuple(self.zip_struct_many([a.args[1][i] for a in v.args[0]]) for i in range(len(a0.args[0]))))
                 if v.kind == "dict" and all(x.kind == "const" and isinstance(x.args[0], str) for x in v.args[0]):
                     for kk, vv in zip(v.args[0], v.args[1]):
                         kw[kk.args[0]] = vv
